@@ -32,7 +32,30 @@ Monitors
            SEQUENCE / ALTERNATIVE alternating, depths 30..2000) in SDP requests (sdp) and in the responses
            parsed by the victim's sdp.Client (sdp-client, whole or over continuation responses), and nested
            parentheses with siblings in AT lines: RAISE monitor for RecursionError / MemoryError + work meter
-Mechanism keys: wedge/<channel>/<what>, derail/<channel>/<what>.
+  state    (ertm-state, rfcomm-open, avdtp-state) stateful attacks: ONE hostile-but-parseable frame whose state fields are set
+           relative to the true protocol state, then a RUN of well-formed traffic sized to exceed every window, each answer
+           with an expectation of its own:
+           ertm-state   a hand-written ERTM peer that keeps the true sequence variables (rf.ErtmSeqModel); S-/I-frames with
+                        ReqSeq 0..63 ahead of the victim's NextTxSeq (incl. exactly one TxWindow), TxSeq 0..63 off, RR / RNR /
+                        REJ / SREJ, P / F / reserved bits, with 0..W+2 frames of the victim left unacknowledged; then poll
+                        (RR P=1 -> F=1 owed, its ReqSeq must be the true one), 72 I-frames each way (> the sequence space)
+                        in bursts of exactly the negotiated TxWindow with no acknowledgment inside a burst, segmented SDUs
+                        among them, every echo compared, final poll must acknowledge all of it
+           rfcomm-open  the victim as RFCOMM INITIATOR against a hand-written responder: every step of open_dlc() answered
+                        in every way (PN accepted / smaller frame / no credits / for another DLCI / for DLCI 0 / twice / DM /
+                        nothing / other frames first; SABM answered UA / DM / DISC / nothing / DM or UA for another DLCI first /
+                        twice / DM on DLCI 0 / wrong C/R; MSC command / response only / before the UA / other DLCI / break /
+                        flow off+on / RLS+RPN / none), unsolicited frames while idle; then the responder behaves: the
+                        outstanding open_dlc() must terminate, and five fresh open / data both ways / close cycles on the
+                        same and on other channels (two DLCs open at once) must work
+           avdtp-state  three local end-points walked into idle / configured / open (with, without transport channel) /
+                        streaming, then every signal addressed to ONE boundary SEID (0, 1, last, last+1, 0x3E, 0x3F; RFA bits,
+                        INT SEID 0 / 0x3F, Start/Suspend lists mixing it with a valid one): a SEID that does not exist is
+                        never accepted; then on EVERY end-point Set_Configuration, Get_Configuration (same bytes back), Open,
+                        transport channel, Start, a media packet reaching exactly that sink, Suspend, Reconfigure, Start,
+                        Close, release, Set_Configuration, Abort, and Discover listing all three
+Mechanism keys: wedge/<channel>/<what>, derail/<channel>/<what>; on the stateful surfaces <what> = <symptom>/after-<class of the
+hostile frame or dialogue step>.
 """
 from __future__ import annotations
 
@@ -59,7 +82,13 @@ RULE = ('per channel: (a) enumeration of every truncation length and every lengt
         'steps; br-config: every refusable option alone and after an MTU option as the first request of a fresh '
         'channel, plus seeded dialogues of 1-3 refusable requests; sdp / sdp-client: every (siblings before, siblings '
         'after) in {(1,0),(0,1),(1,1),(2,0),(0,2),(3,0),(0,3),(2,1),(3,3)} x {seq, alt, alternating} x 4 sibling '
-        'types x depths {30,33,64,200,700,1000,2000} (quick: those below 6 KB, every third), random ones in the rounds')
+        'types x depths {30,33,64,200,700,1000,2000} (quick: those below 6 KB, every third), random ones in the rounds; '
+        'ertm-state: every ReqSeq offset 0..63 x {RR, RNR, REJ, SREJ, I-frame} x {plain, P / F / reserved-bit variant}, every TxSeq '
+        'offset 1..63, each alone in a round with 0..W+2 unacknowledged frames outstanding (W in {1,2,3,8,32,63} by case), plus seeded '
+        'rounds of 1-3 such frames and mutated corpus frames, each round followed by the 72-frame run; rfcomm-open: every (PN step, SABM '
+        'step) pair and every MSC variant as one scripted open_dlc() dialogue per round (never thinned), every unsolicited corpus '
+        'frame, seeded combinations; avdtp-state: every (boundary SEID, signal, variant) alone in a round after a seeded walk of 1-3 '
+        'end-points into seeded states, seeded rounds of 1-4 commands on one boundary SEID, mutated corpus frames')
 ASSUMPTIONS = [
     'the virtual link loses nothing; hostile frames are whole L2CAP PDUs (fragmented by the attacker host as usual) '
     'or whole H4 packets',
@@ -75,6 +104,20 @@ ASSUMPTIONS = [
     'br-config: hostile Configure Requests carry no continuation flag; a request the victim accepts with SUCCESS ends the '
     'peer\'s side of the configuration (no retry owed); a victim that closes the channel instead (Disconnection Request) '
     'owes nothing more on it, the next channel must work',
+    'ertm-state: an acknowledgment or TxSeq outside the valid range is met by closing the channel (8.6.5: the run then uses a fresh '
+    'channel) or by ignoring it; a receiver may take or drop the data of an in-sequence I-frame whose ReqSeq it refuses (the peer '
+    'resynchronises from the ReqSeq of the poll answer, by at most the number of such frames); hostile in-sequence I-frames with a '
+    'SAR sequence error or more than MPS bytes retire the channel (what the receiver does with the SDU is not judged); the peer answers '
+    'a poll of the victim (P=1, or bumble\'s RR with F=1 sent from its retransmission timer) with F=1; no virtual time passes while '
+    'frames of the victim are unacknowledged',
+    'rfcomm-open: a DM or a DISC for the DLCI being opened, at the PN or at the SABM stage, is a terminal answer (open_dlc() must '
+    'terminate, with an ordinary exception or a DLC); a PN response naming another DLCI, a DM / UA for another DLCI or for DLCI 0 are '
+    'no answer: what the victim does with the outstanding open_dlc() is only required to TERMINATE once the responder has answered '
+    'properly; valid DISC / DM on DLCI 0 and flow-off frames are not sent (legitimate close / throttle)',
+    'avdtp-state: a command addressed to an existing SEID changes the state as the AVDTP state machine says iff it was accepted (the '
+    'model follows the response); Abort for a SEID that does not exist may be accepted or left unanswered (bumble accepts it; 8.15.2 '
+    'says no response): not judged; the in-use bit of Discover is not judged; after mutated frames every end-point is aborted before '
+    'the run',
     'sdp-client: a hostile response the client legitimately accepts (valid PDU, right transaction ID) may make the '
     'outstanding call return garbage or raise an ordinary exception; only its termination is judged, correctness is judged '
     'on the fresh query that follows',
@@ -124,6 +167,28 @@ MIN_EVENTS['thorough'].update({
     'config_victim_initiated_opened': 500,
     'class_deep-nesting-siblings': 5000, 'sdpc_deep_responses_parsed': 2000, 'sdpc_calls_completed': 8000,
     'host_command_references': 15000,
+})
+
+# the stateful surfaces: few hostile frames per round (each followed by a long run), and the deciding counters of the runs
+MIN_EVENTS['quick'].update({
+    'frames_ertm-state': 150, 'frames_rfcomm-open': 100, 'frames_avdtp-state': 100,
+    'rfcomm_acceptor_reopen_cycles': 50, 'rfcomm_acceptor_run_frames': 1200,
+    'ertm_run_iframes_echoed': 10000, 'ertm_runs_completed': 150, 'ertm_polls_answered': 400,
+    'ertm_rounds_with_outstanding_frames': 80,
+    'rfo_scripted_opens': 70, 'rfo_outstanding_opens_terminated': 70, 'rfo_cycles_data_both_ways': 400,
+    'rfo_reference_runs_completed': 80,
+    'avs_hostile_commands': 90, 'avs_invalid_seid_commands_judged': 50, 'avs_reference_commands_accepted': 2000,
+    'avs_endpoint_runs_completed': 200, 'avs_media_packets_delivered': 120,
+})
+MIN_EVENTS['thorough'].update({
+    'frames_ertm-state': 6000, 'frames_rfcomm-open': 4000, 'frames_avdtp-state': 6000,
+    'rfcomm_acceptor_reopen_cycles': 2500, 'rfcomm_acceptor_run_frames': 60000,
+    'ertm_run_iframes_echoed': 300000, 'ertm_runs_completed': 4000, 'ertm_polls_answered': 10000,
+    'ertm_rounds_with_outstanding_frames': 2000,
+    'rfo_scripted_opens': 2500, 'rfo_outstanding_opens_terminated': 2500, 'rfo_cycles_data_both_ways': 15000,
+    'rfo_reference_runs_completed': 4000,
+    'avs_hostile_commands': 5000, 'avs_invalid_seid_commands_judged': 2500, 'avs_reference_commands_accepted': 100000,
+    'avs_endpoint_runs_completed': 10000, 'avs_media_packets_delivered': 6000,
 })
 
 KNOWN_VALUE = b'C17-known-value'
@@ -1154,24 +1219,6 @@ class BrDynDriver(BrSigDriver):
         return bad
 
 
-class BrErtmDriver(BrSigDriver):
-    def __init__(self, env, rng):
-        super().__init__(env, rng)
-        self.corpus = rf.ertm_corpus()
-        self.max_len = 700
-        self.ch = None
-
-    async def before_round(self):
-        if self.ch is None or self.ch[0] in self.closed_by_victim:
-            res = await self.atk.open_classic(ECHO_PSM_ERTM, ertm=True)
-            if isinstance(res, str):
-                raise HarnessError(f'cannot open the ERTM target channel: {res}')
-            self.ch = res
-
-    def tx(self, data):
-        self.atk.send(self.ch[1], data)
-
-
 class ChannelDriver(Driver):
     """Protocols that live on one classic channel opened by hand to `psm`."""
     psm = 0
@@ -1285,11 +1332,54 @@ class RfcommDriver(ChannelDriver):
         self.n += 1
         e = await self.rfs.echo(b'C17 rfcomm echo %d' % self.n)
         if e is None:
+            if self.n % 2 == 0 and type(self).reopen_and_run is RfcommDriver.reopen_and_run:
+                return await self.reopen_and_run()
             return []
         d = self.env.dlcs[-1]
         return self.channel_closed_by_victim() or [
             ('no-echo-after-garbage', f'{e}; victim DLC {d} mux state {d.multiplexer.state.name} '
                                       f'dlcs={ {k: v.state.name for k, v in d.multiplexer.dlcs.items()} }')]
+
+    RUN = 24
+
+    async def reopen_and_run(self):
+        """A close / open cycle of the DLC on the acceptor side (DISC -> UA, PN, SABM -> UA, MSC), then more echo frames
+        than either credit window holds, credits respected in both directions (the victim must keep granting them)."""
+        rfs, atk, r = self.rfs, self.atk, self.env.r
+
+        def diag():
+            d = self.env.dlcs[-1]
+            return f'victim DLC {d} mux state {d.multiplexer.state.name} dlcs={ {k: v.state.name for k, v in d.multiplexer.dlcs.items()} }'
+        n_dlcs = len(self.env.dlcs)
+        rfs.frames.clear()
+        rfs.tx(rf.rfcomm_frame(rf.DISC, 1, rfs.dlci, 1))
+        f = await atk.until(lambda: rfs.take(lambda f: f.ftype in (rf.UA, rf.DM) and f.dlci == rfs.dlci))
+        if f is None:
+            return self.channel_closed_by_victim() or [('no-ua-for-disc-after-garbage', f'DISC on the live DLC got neither UA nor DM; {diag()}')]
+        e = await rfs.open_dlc()
+        if e:
+            return self.channel_closed_by_victim() or [('dlc-reopen-fails-after-garbage', f'closing and opening the DLC again: {e}; {diag()}')]
+        if len(self.env.dlcs) != n_dlcs + 1:
+            return [('dlc-reopen-not-delivered-after-garbage', f'the victim answered PN and SABM but its acceptor saw {len(self.env.dlcs) - n_dlcs} new DLC(s); {diag()}')]
+        r.ev('rfcomm_acceptor_reopen_cycles')
+        for i in range(self.RUN):
+            if rfs.victim_credits <= 0:
+                got = await atk.until(lambda: True if rfs.victim_credits > 0 else None)
+                if got is None:
+                    return [('no-credits-granted-on-fresh-dlc', f'frame {i} of the run: the peer used up its credits and the victim grants no more; {diag()}')]
+            rfs.victim_credits -= 1
+            payload = b'C17 dlc run %d/%d' % (self.n, i)
+            rfs.rx.clear()
+            rfs.send_data(payload, credits=None if i % 4 == 3 else 1)
+            got = await atk.until(lambda: bytes(rfs.rx) if len(rfs.rx) >= len(payload) else None)
+            if got != payload:
+                return self.channel_closed_by_victim() or [
+                    ('no-echo-on-reopened-dlc', f'frame {i} of the run on the re-opened DLC: received {bytes(rfs.rx)!r} != {payload!r}; {diag()}')]
+            r.ev('rfcomm_acceptor_run_frames')
+        # (the rounds that follow send data without regard to credits: leave the victim enough to echo all of it at once)
+        rfs.send_data(b'', credits=60)
+        await atk.rg.quiesce(extra_turns=4)
+        return []
 
 
 class RfcommDlcDriver(RfcommDriver):
@@ -2353,7 +2443,7 @@ class ErtmStateDriver(BrSigDriver):
 
     def send_own(self, pdu: bytes):
         """A frame of the well-behaved side of the peer (accounted in the model like every other frame)."""
-        self.model.note_sent(pdu)
+        self.model.note_sent(pdu, own=True)
         self.atk.send(self.ch[1], pdu)
 
     # -- channels ---------------------------------------------------------------------------------
@@ -2499,11 +2589,17 @@ class ErtmStateDriver(BrSigDriver):
                 break
         else:
             return [(f'echoes-never-drain/after-{self.label}', f'the victim keeps sending I-frames after 80 polls {self.diag()}')]
-        if f['req'] != m.my_tx:
-            # the receiver dropped (or took) a hostile in-sequence I-frame whose acknowledgment it refused: its answer
-            # to the poll says where it is, like for any real peer
+        behind = (m.my_tx - f['req']) % 64
+        if behind > m.doubtful:
+            return [(f'victim-acknowledges-wrong-sequence/after-{self.label}',
+                     f'the victim answers the poll with ReqSeq={f["req"]}: the next TxSeq of the peer is {m.my_tx} and at most '
+                     f'{m.doubtful} of its I-frames (in sequence, but carrying an invalid ReqSeq) may have been dropped {self.diag()}')]
+        if behind:
+            # the receiver dropped hostile in-sequence I-frames whose acknowledgment it refused: its answer to the poll
+            # says where it is, like for any real peer
             r.ev('ertm_resynchronised_from_poll')
             m.my_tx = f['req']
+        m.doubtful = 0
         if self.partial is not None:
             return [(f'victim-sdu-never-completed/after-{self.label}', f'the victim left a segmented SDU unfinished {self.diag()}')]
         # 2. sometimes: nothing happens for a while (everything is acknowledged: no timer of a correct entity is running)
@@ -2595,6 +2691,19 @@ class ErtmStateDriver(BrSigDriver):
             bad = await self.new_channel()
             return bad or await self.echo_run()
         return bad
+
+
+class BrErtmDriver(ErtmStateDriver):
+    """Arbitrary (truncated, extended, bit-flipped, spliced, random) frames on an ERTM channel, accounted by the same
+    sequence model; the reference is the same run, on the same channel whenever the model can say what the frames meant
+    to a correct receiver, on a fresh one otherwise."""
+
+    def gen(self, n):
+        return [(k, nm, bytes([rf.ERTM_KIND_RAW]) + d) for k, nm, d in Driver.gen(self, n)]
+
+    def enum_frames(self):
+        for k, nm, d in Driver.enum_frames(self):
+            yield (k, nm, bytes([rf.ERTM_KIND_RAW]) + d)
 
 
 class RfcommOpenDriver(Driver):
@@ -2704,15 +2813,18 @@ class RfcommOpenDriver(Driver):
             return self.pn_rsp(dlci, v)
         self.scripted_dlci = dlci
         step = rf.RFCOMM_PN_STEPS[sc[0]]
-        o = dlci ^ 4
+        o = self.other(dlci)
         if step == 'accept':
             self.pn_rsp(dlci, v)
         elif step == 'accept-small-frame':
             self.pn_rsp(dlci, v, frame_size=23)
         elif step == 'accept-no-credits':
             self.pn_rsp(dlci, v, credits=0)
-        elif step == 'accept-other-dlci':
-            self.pn_rsp(o, v)
+        elif step in ('accept-other-dlci', 'accept-dlci-0'):
+            # (a PN response that names another DLCI is no answer to this PN command: the command stays unanswered
+            # until the responder behaves)
+            self.mcc(rf.MCC_PN, 0, rf.rfcomm_pn(o if step == 'accept-other-dlci' else 0, 127, 7, cl=0xE0))
+            self.pending_pn.append((dlci, v))
         elif step == 'accept-twice':
             self.pn_rsp(dlci, v)
             self.pn_rsp(dlci, v)
@@ -2733,11 +2845,16 @@ class RfcommOpenDriver(Driver):
             self.mcc(rf.MCC_PN, 1, rf.rfcomm_pn(dlci))
             self.pn_rsp(dlci, v)
 
+    @staticmethod
+    def other(dlci):
+        """Another DLCI of the same direction bit, never 0."""
+        return dlci + 4 if dlci + 4 <= 60 else dlci - 4
+
     def msc_cmd(self, dlci, fc=0, extra=b''):
         self.mcc(rf.MCC_MSC, 1, rf.rfcomm_msc(dlci, fc) + extra)
 
     def ua_and_msc(self, d, msc='command-and-response', cr=1):
-        o = d ^ 4
+        o = self.other(d)
         if msc == 'command-before-ua':
             self.msc_cmd(d)
         self.send(rf.rfcomm_frame(rf.UA, cr, d, 1))
@@ -2764,7 +2881,7 @@ class RfcommOpenDriver(Driver):
             return self.ua_and_msc(d)
         self.sabm_done = True
         step, msc = rf.RFCOMM_SABM_STEPS[sc[1]], rf.RFCOMM_MSC_STEPS[sc[2]]
-        o = d ^ 4
+        o = self.other(d)
         if step == 'ua':
             self.ua_and_msc(d, msc)
         elif step == 'dm':
@@ -3454,7 +3571,7 @@ async def run_case(case, r: R):
 
 LEVEL_TEXT = ('Work meter (sys.monitoring PY_START/JUMP counts per injected frame, RAISE events for RecursionError/MemoryError, '
               'livelock detection of the virtual loop), fatal-escape monitor and alive/answer oracle on a real victim device, over '
-              '~1.8x10^4 (quick) / ~10^6 (thorough) hostile frames on 21 input surfaces (ATT server and client side, SMP LE and '
+              '~1.9x10^4 (quick) / ~10^6 (thorough) hostile frames on 24 input surfaces (ATT server and client side, SMP LE and '
               'BR/EDR, LE and BR/EDR signalling, credit-based, basic and ERTM dynamic channels, SDP server and SDP client, RFCOMM mux '
               'and DLC, HFP AG and HF AT streams, AVDTP, AVCTP/AVRCP, HCI events/ACL/SCO/ISO into the host on LE and BR/EDR links, HCI '
               'command flow control played by a hand-written controller, BR/EDR configuration refusal dialogues): every truncation '
@@ -3466,6 +3583,13 @@ LEVEL_TEXT = ('Work meter (sys.monitoring PY_START/JUMP counts per injected fram
               'Configuration dialogues: all 68 refusable option encodings (unknown, hint, unimplemented) as first request of a fresh '
               'channel in two framings, then the well-formed retry, data both ways. Structure-aware nesting: 756 shapes (siblings '
               'before/after x SEQUENCE/ALTERNATIVE pattern x sibling type x depth 30..2000) into the SDP server and the SDP client. '
+              'Stateful attacks on three more surfaces (ERTM sequence state against a hand-written peer that keeps the true '
+              'sequence variables; the RFCOMM initiator against a hand-written responder playing every step of open_dlc() in every '
+              'way; the AVDTP acceptor with three end-points in seeded states and commands on boundary SEIDs): ~700 + ~115 + ~190 '
+              'enumerated hostile frames / dialogues plus seeded rounds, each followed by a RUN instead of one request: 72 I-frames '
+              'each way in bursts of exactly the TxWindow (~2.5x10^4 echoed I-frames quick), five RFCOMM open / data / close '
+              'cycles (~10^3 quick), the whole configure-open-start-suspend-reconfigure-close-abort cycle on every end-point '
+              '(~5x10^3 accepted commands quick). '
               'Sampling of the byte-string / history space, not proof.')
 LEVEL_NOTE = ('Trusted: the hand-written corpora, builders and reference parsers in vlib/ref_fuzz.py, the hand-driven L2CAP/'
               'RFCOMM/AT attacker in checks/c17.py, rig taps, the virtual-time loop, CPython sys.monitoring. A busy loop that '
